@@ -158,7 +158,7 @@ def _common_axis(axes, join):
 
     # special cases
     # do not include None unless we have a singleton
-    if ax0[0] is None:
+    if ax0.size > 0 and ax0[0] is None:
         return ax1
     if len(ax1) == 1 and ax1[0] is None:
         return ax0
@@ -611,6 +611,18 @@ def reindex_axis(self, values, axis=0, fill_value=np.nan, raise_error=False, met
 
     # Get indices
     ax = self.axes[axis]
+    if ax.size == 0 and values.size > 0:
+        # nothing to take from an empty axis: every new label is missing
+        if raise_error:
+            raise IndexError("Some values where not found in the axis: {}".format(values))
+        pos, name = self._get_axis_info(axis)
+        shape = list(self.shape)
+        shape[pos] = values.size
+        newvalues = np.empty(shape, dtype=np.result_type(self.values.dtype, np.asarray(fill_value).dtype))
+        newvalues.fill(fill_value)
+        newaxes = [a.copy() if a.name != name else Axis(values, name, **a.attrs) for a in self.axes]
+        return self._constructor(newvalues, newaxes, **self.attrs)
+
     # indices = ax.loc(values, mode='clip', side=method)
     indices = locate_many(ax.values, values, side=method or 'left')
     newobj = self.take_axis(indices, axis, indexing='position')
